@@ -344,7 +344,9 @@ func (ip *Inode) Write(atxn *alloctxn.AllocTxn, offset uint64,
 		}
 		if byteoff == 0 && nbytes == disk.BlockSize { // block overwrite?
 			addr := atxn.Super.Block2addr(blkno)
-			atxn.Op.OverWrite(addr, common.NBITBLOCK, data[0:nbytes])
+			// the journal keeps the slice it is given, and data belongs to the
+			// caller: the RPC server reuses its request buffers
+			atxn.Op.OverWrite(addr, common.NBITBLOCK, util.CloneByteSlice(data[0:nbytes]))
 		} else {
 			buffer := atxn.ReadBlock(blkno)
 			for b := uint64(0); b < nbytes; b++ {
